@@ -19,35 +19,41 @@ func NewPacketWriter(totalLen ...int) *Writer {
 	return &Writer{buf: bytebufferpool.Get()}
 }
 
-func (p2 *Writer) writeNumeric(p any) {
+func (p2 *Writer) writeNumeric(p any) bool {
 	if p2.opError != nil {
-		return
+		return false
 	}
 
 	if err := binary.Write(p2.buf, packetOrder, p); err != nil {
 		p2.opError = newPacketError(err, "WriteNumeric write")
-		return
+		return false
 	}
+
+	return true
 }
 
 func (p2 *Writer) WriteUint8(p uint8) {
-	p2.writeNumeric(p)
-	p2.written += 1
+	if p2.writeNumeric(p) {
+		p2.written += 1
+	}
 }
 
 func (p2 *Writer) WriteUint16(p uint16) {
-	p2.writeNumeric(p)
-	p2.written += 2
+	if p2.writeNumeric(p) {
+		p2.written += 2
+	}
 }
 
 func (p2 *Writer) WriteUint32(p uint32) {
-	p2.writeNumeric(p)
-	p2.written += 4
+	if p2.writeNumeric(p) {
+		p2.written += 4
+	}
 }
 
 func (p2 *Writer) WriteUint64(p uint64) {
-	p2.writeNumeric(p)
-	p2.written += 8
+	if p2.writeNumeric(p) {
+		p2.written += 8
+	}
 }
 
 func (p2 *Writer) WriteBytes(data []byte) {
